@@ -15,6 +15,7 @@ mkdir -p "$S/repo" "$S/build"
 git -C /repo archive HEAD | tar -x -C "$S/repo"
 git -C /repo diff HEAD | (cd "$S/repo" && patch -p1 -s) 2>/dev/null || true
 (cd "$S/repo" && git init -q . && git add -A >/dev/null 2>&1 && git -c user.email=v@v -c user.name=v commit -q -m base) || exit 2
+BASE="$(git -C /repo rev-parse --short HEAD)"
 for P in "${PATCHES[@]}"; do
   P="$(readlink -f "$P")"
   case "$P" in
@@ -24,7 +25,7 @@ for P in "${PATCHES[@]}"; do
   if grep -q -P "^$PROP\t$NAME\t" "$OUTTSV" 2>/dev/null; then continue; fi
   git -C "$S/repo" checkout -q -- . ; git -C "$S/repo" clean -q -fd
   if ! (cd "$S/repo" && patch -p1 -s < "$P") >/dev/null 2>&1; then
-    printf '%s\t%s\tBROKEN\t0\tpatch does not apply\n' "$PROP" "$NAME" >> "$OUTTSV"; continue
+    printf '%s\t%s\tBROKEN\t0\tpatch does not apply\t%s\n' "$PROP" "$NAME" "$BASE" >> "$OUTTSV"; continue
   fi
   rm -rf "$S/out"; mkdir -p "$S/out"
   START=$(date +%s)
@@ -32,11 +33,11 @@ for P in "${PATCHES[@]}"; do
   RC=$?
   END=$(date +%s)
   if [ $RC -eq 1 ] && grep -q "^VIOLATION property=$PROP" "$S/log.txt"; then
-    printf '%s\t%s\tDETECTED\t%s\t%s\n' "$PROP" "$NAME" "$((END-START))" "$(grep -m1 '^VIOLATION-DETAIL' "$S/log.txt" | cut -c1-300 | tr '\t' ' ')" >> "$OUTTSV"
+    printf '%s\t%s\tDETECTED\t%s\t%s\t%s\n' "$PROP" "$NAME" "$((END-START))" "$(grep -m1 '^VIOLATION-DETAIL' "$S/log.txt" | cut -c1-300 | tr '\t' ' ')" "$BASE" >> "$OUTTSV"
   elif [ $RC -eq 0 ]; then
-    printf '%s\t%s\tMISSED\t%s\t\n' "$PROP" "$NAME" "$((END-START))" >> "$OUTTSV"
+    printf '%s\t%s\tMISSED\t%s\t\t%s\n' "$PROP" "$NAME" "$((END-START))" "$BASE" >> "$OUTTSV"
   else
-    printf '%s\t%s\tBROKEN\t%s\t%s\n' "$PROP" "$NAME" "$((END-START))" "rc=$RC $(tail -3 "$S/log.txt" | tr '\n\t' '  ' | cut -c1-300)" >> "$OUTTSV"
+    printf '%s\t%s\tBROKEN\t%s\t%s\t%s\n' "$PROP" "$NAME" "$((END-START))" "rc=$RC $(tail -3 "$S/log.txt" | tr '\n\t' '  ' | cut -c1-300)" "$BASE" >> "$OUTTSV"
   fi
   tail -1 "$OUTTSV"
 done
